@@ -17,6 +17,8 @@ CHECKS = {
          "Lean 4 proof (refinement of pop/peek/sub-lexers to the position spec)"),
  "C10": ("4.10", "Lean theorems tiling/progress/bad_reported/all_consumed: items (tokens + reported bad lexemes) tile the source, gaps are line splices only, every item non-empty, every bad lexeme reported at its position; content equality (token text = normalised slice) is decided per input by the correspondence and the independent scanner (partial)",
          "Lean 4 proof (tiling invariant by induction over the token stream)"),
+ "C11": ("4.11", "Lean theorem C11.int_valid: every well-formed integer constant of C11 6.4.4.1 (decimal, octal, hexadecimal, binary; digit strings of any length; every suffix of the table) becomes exactly one CONSTANT token with its exact text and no diagnostic, at any position and for any allowed continuation; floats, character/string constants and the malformed families are decided per input (correspondence with the model + independent recogniser), with closed kernel-evaluated witnesses of each malformed family (partial)",
+         "Lean 4 proof (span lemmas over the specialised matchers, induction-free over unbounded digit strings) + literal-family correspondence"),
  "C15": ("4.15", "Lean theorems about the work-list loop of main over a file-system model: when every argument exists the selection is exactly the named .c/.h files in order followed by the non-hidden *.c/*.h regular files below each named directory, once per mention; a missing path aborts with nothing analysed; no argument = the cwd tree; other suffixes contribute nothing; tied to __main__.py by the select correspondence on generated trees and an independent os.walk oracle; --use-gitignore compared against git's own answers",
          "Lean 4 proof (fold invariant over the argument list) + select correspondence"),
 }
